@@ -126,7 +126,13 @@ class Run:
             print(f"KNOWN-FINDING: property={self.prop} {kid}: {k['what']} [{cnt} case(s) this run]")
         seen = set()
         rdir = os.path.join(env.VERIF, 'replays', self.prop)
+        # the 25 replay files are dealt out clause by clause (the first failure of every clause, then the second of every clause, ...)
+        by_clause = {}
         for f in viol:
+            by_clause.setdefault(f['clause'], []).append(f)
+        ordered = [v[k] for k in range(max([len(v) for v in by_clause.values()] or [0])) for v in by_clause.values() if k < len(v)] \
+            if len(by_clause) > 1 else viol
+        for f in ordered:
             key = hashlib.sha1(canon([f['clause'], f['case']]).encode()).hexdigest()[:16]
             if key in seen:
                 continue
